@@ -334,6 +334,12 @@ type v06Conn struct {
 	sClosed     bool // server closed its end of the target conn
 	terminated  bool // the harness started a terminal event on this conn
 
+	slowDial     bool // Outbound.TCP parks until the harness releases it
+	dialParked   bool
+	dialReleased bool
+	timeouts     int // Reads of the client conn that returned a timeout error
+	dlGen        int // bumped whenever the harness cleared the deadline again
+
 	conn       net.Conn
 	readerDone bool
 	readerErr  error
@@ -497,6 +503,18 @@ func (o *v06Outbound) TCP(reqAddr string) (net.Conn, error) {
 	if c.dialCalls > 1 {
 		w.evLocked("dial", reqAddr, 0, 0, "again")
 		return nil, v06StrErr("v06: dialed twice")
+	}
+	if c.slowDial && !c.dialReleased {
+		// slow dial: no implementation lock is held while the server dials
+		c.dialParked = true
+		w.evLocked("dial", reqAddr, 0, 0, "PARKED")
+		w.cond.Broadcast()
+		for !c.dialReleased && !w.ended {
+			w.cond.Wait()
+		}
+		if w.ended {
+			return nil, v06StrErr("v06: case over")
+		}
 	}
 	if c.dialFail {
 		w.evLocked("dial", reqAddr, 0, 0, "fail")
